@@ -39,6 +39,11 @@ func (s *SimpleFragmenter) Fragment(orig []byte, ot TermLocations) []*Fragment {
 	maxbegin := 0
 OUTER:
 	for currTermIndex, termLocation := range ot {
+		if !withinText(termLocation, orig) {
+			// a location that does not lie within the text (possibly due to
+			// token replacement) cannot anchor a fragment
+			continue
+		}
 		// start with this
 		// it should be the highest scoring fragment with this term first
 		start := termLocation.Start
@@ -79,6 +84,9 @@ OUTER:
 		// find the end of the last term in this fragment
 		minend := end
 		for _, innerTermLocation := range ot[currTermIndex:] {
+			if !withinText(innerTermLocation, orig) {
+				continue
+			}
 			if innerTermLocation.End > end {
 				break
 			}
@@ -129,4 +137,8 @@ OUTER:
 	}
 
 	return rv
+}
+
+func withinText(tl *TermLocation, orig []byte) bool {
+	return tl.Start >= 0 && tl.Start <= tl.End && tl.End <= len(orig)
 }
